@@ -144,6 +144,8 @@ func runChanFreeCase(c *ChanFreeCase) *ChanFreeResult {
 	for off < len(stream) {
 		if len(stream)-off < 14 || stream[off] != 0xA7 {
 			fail("C10", "stress-garbled", fmt.Sprintf("wire offset %d does not start a record (byte %#x): a payload was altered before it was sent or bytes of different payloads are mixed", off, stream[off]))
+			fail("C09", "stress-garbled", fmt.Sprintf("wire offset %d does not start a record (byte %#x): the bytes of different payloads are mixed on the wire", off, stream[off]))
+			fail("C01", "stress-garbled", fmt.Sprintf("wire offset %d does not start a record (byte %#x): the transport did not receive a concatenation of accepted payloads", off, stream[off]))
 			break
 		}
 		wr, seq, n := int(stream[off+1]), int(binary.BigEndian.Uint32(stream[off+2:])), int(binary.BigEndian.Uint32(stream[off+6:]))
@@ -154,6 +156,7 @@ func runChanFreeCase(c *ChanFreeCase) *ChanFreeResult {
 		want := freeRecord(wr, seq, n)
 		if string(stream[off:off+14+n]) != string(want) {
 			fail("C10", "stress-modified", fmt.Sprintf("record %d of writer %d (%d bytes) reached the transport with altered bytes", seq, wr, n))
+			fail("C01", "stress-modified", fmt.Sprintf("record %d of writer %d (%d bytes) reached the transport with altered bytes", seq, wr, n))
 		}
 		if seen[wr][seq] {
 			fail("C01", "stress-duplicate", fmt.Sprintf("record %d of writer %d was transmitted twice", seq, wr))
